@@ -168,7 +168,21 @@ def replay(r):
     outside |alpha| <= 1 and compare with the float oracle"""
     meta = r.get("meta") or {}
     name = meta.get("skeleton")
+    from .hf_native import native_compare
+    if name is None and ("_combined.apply" in r["name"] or "ParamViewer.get" in r["name"] or "_MainModel.expected_data" in r["name"] or "_MainModel.modifications" in r["name"]):
+        # tier P obligations have no input of their own: the appliers are exercised natively through the whole pipeline
+        # on curated skeletons (all modifier types, shared names, different bin counts), unbatched and with two batch rows
+        out = {"reproduced": False, "disagreements": []}
+        for sk in ("all-seven-types", "2c-different-nbins-staterror", "1c2s-normsys-histosys-shared-name", "shapefactor-shared-equal-bins", "mixed-constraint-widths"):
+            for batch, variant in ((None, "default"), (2, "default"), (None, "clip"), (2, "clip")):
+                try:
+                    res = native_compare(dict(K.CURATED)[sk], variant=variant, what="expected", batch=batch)
+                except Exception as e:           # the real code raising on a well-formed model is a reproduction, too
+                    res = {"reproduced": True, "disagreements": [f"evaluation raises {type(e).__name__}: {e}"]}
+                if res.get("reproduced"):
+                    out["reproduced"] = True
+                    out["disagreements"].append({"skeleton": sk, "batch": batch, "variant": variant, "first": res["disagreements"][:2]})
+        return out
     if name is None:
         return None
-    from .hf_native import native_compare
     return native_compare(name, variant=meta.get("variant", "default"), what="expected")
